@@ -64,8 +64,10 @@ fn find_fn<'r>(reg: &'r Registry, t: &Target) -> R<(&'r syn::Signature, &'r syn:
                         Some((t, x)) => (Some(t), x),
                         None => (None, imp),
                     };
-                    let has_trait = im.trait_.as_ref().map(|(_, p, _)| p.segments.last().map(|s| s.ident.to_string()).unwrap_or_default());
-                    if has_trait.as_deref() != want_trait {
+                    // the trait with its generic arguments (`PartialEq<&str>`), without a module prefix
+                    let has_trait = im.trait_.as_ref().map(|(_, p, _)| p.segments.last().map(|s| norm_tokens(s).replace(' ', "")).unwrap_or_default());
+                    let want_trait = want_trait.map(|w| w.replace(' ', ""));
+                    if has_trait != want_trait {
                         continue;
                     }
                     let name = match &*im.self_ty {
@@ -75,7 +77,18 @@ fn find_fn<'r>(reg: &'r Registry, t: &Target) -> R<(&'r syn::Signature, &'r syn:
                     if name != imp {
                         continue;
                     }
-                    if !im.generics.params.is_empty() {
+                    // `impl<T> .. where T: AsRef<[u8]>`: a byte-string parameter (registered by translate_fn through IMPL_BYTESLIKE)
+                    let gen_ok = im.generics.params.iter().all(|g| match g {
+                        syn::GenericParam::Lifetime(_) => true,
+                        syn::GenericParam::Type(tp) => {
+                            let n = tp.ident.to_string();
+                            let w = im.generics.where_clause.as_ref().map(|w| norm_tokens(w).replace(' ', "")).unwrap_or_default();
+                            let b = norm_tokens(&tp.bounds).replace(' ', "");
+                            b == "AsRef<[u8]>" || w.contains(&format!("{}:AsRef<[u8]>", n))
+                        }
+                        _ => false,
+                    });
+                    if !gen_ok {
                         return Err(format!("`impl {}` has generic parameters", imp));
                     }
                     if has_cfg(&im.attrs) {
@@ -167,8 +180,12 @@ fn translate_one(
         features: config::features_of(t.lean),
     };
     if let Some(i) = t.imp {
-        if let Some((_, x)) = i.split_once(" for ") {
+        if let Some((tr_name, x)) = i.split_once(" for ") {
             tr.self_ty = Some(x.to_string());
+            // `impl<T> TryFrom<Option<T>> for X where T: AsRef<[u8]>` (checked by find_fn): `T` is a byte string
+            if tr_name.contains("<Option<T>>") {
+                tr.tparams.insert("T".to_string(), TParam::BytesLike);
+            }
         }
     }
     let res = translate_fn(&mut tr, sig, block);
